@@ -42,6 +42,7 @@ def new_solver(timeout_ms: int = 60000, logic: Optional[str] = None) -> "z3.Solv
 
 
 DIV_HOOK = None     # optional callable invoked at every symbolic division (lets a harness cut a path there)
+OP_LOG = None       # optional list: ("div", num, den, len(pc)) / ("abs", operand, len(pc)) for every symbolic division / abs()
 
 
 class Escaped(Exception):
@@ -55,11 +56,13 @@ class Engine:
         self.decisions = list(decisions)
         self.pos = 0
         self.pc: List[Any] = []
+        self.raw: List[Any] = []       # the same decisions before z3.simplify (sub-terms stay syntactically those of the operands)
         self.base = base
         self.timeout_ms = timeout_ms
         self.unknown = False
 
     def decide(self, cond) -> bool:
+        raw = cond
         cond = z3.simplify(cond)
         if z3.is_true(cond):
             return True
@@ -83,6 +86,7 @@ class Engine:
             self.decisions.append(d)
         self.pos += 1
         self.pc.append(cond if d else z3.Not(cond))
+        self.raw.append(raw if d else z3.Not(raw))
         return d
 
 
@@ -189,11 +193,21 @@ class SymReal(float):
     def __truediv__(self, o):
         if DIV_HOOK is not None:
             DIV_HOOK()
+        if OP_LOG is not None:
+            try:
+                OP_LOG.append(("div", self.e, _rv(o), len(ENG.pc) if ENG is not None else 0))
+            except TypeError:
+                pass
         return SymReal._td(self, o)
 
     def __rtruediv__(self, o):
         if DIV_HOOK is not None:
             DIV_HOOK()
+        if OP_LOG is not None:
+            try:
+                OP_LOG.append(("div", _rv(o), self.e, len(ENG.pc) if ENG is not None else 0))
+            except TypeError:
+                pass
         return SymReal._rtd(self, o)
 
     def __neg__(self):
@@ -203,6 +217,8 @@ class SymReal(float):
         return self
 
     def __abs__(self):
+        if OP_LOG is not None:
+            OP_LOG.append(("abs", self.e, len(ENG.pc) if ENG is not None else 0))
         return SymReal(z3.If(self.e >= 0, self.e, -self.e))
 
     def __pow__(self, n, mod=None):
